@@ -169,10 +169,9 @@ func (stats GetMessagesStats) NickWithFallback() string {
 	if stats.Nick != "" {
 		return stats.Nick
 	}
-	if session, err := stats.api.ircServer().GetSession(stats.Session); err == nil {
-		return session.Nick
-	}
-	return ""
+	// GetNick holds the session lock while reading the nickname (and returns
+	// the empty string if the session does not exist).
+	return stats.api.ircServer().GetNick(stats.Session)
 }
 
 // StartedAndRelative converts |stats.Started| into a human-readable formatted
